@@ -60,6 +60,7 @@ def run : Runner
     let sts := if steps == "-" then [] else steps.splitOn ","
     let (_, out) ← sts.foldlM (fun (acc : Wif.WIF × List String) st => histStep acc st) (w0, [])
     pure { model := if out.isEmpty then "-" else " ".intercalate out, prop := "spec" }
+  | "wifnil", _, impl => pure { model := "refused", prop := if impl == "refused" then "ok" else "violated:NewWIF accepted a nil network" }
   | _, _, _ => none
 
 end Bch.Drive.C06
